@@ -9,6 +9,8 @@ import (
 	"os"
 	"os/exec"
 	"strings"
+	"unicode"
+	"unicode/utf8"
 
 	"github.com/nbutton23/zxcvbn-go"
 )
@@ -151,6 +153,55 @@ func suiteV17(c *vctx) {
 			if ty != "" && err != nil && i%10 == 0 {
 				_, serr := newVAgent(c, fmt.Sprintf("polbad%d", i), 1, "", ty, cond, "")
 				c.emit("law.C17.bad_policy_stops_agent "+vxs(ty+"|"+cond), vtf(serr != nil))
+			}
+		}
+	}
+	// (1b) Go's own string functions against the model they are modelled by: strings.Fields (the
+	// byte-level scan of Model/Policy.lean), utf8.DecodeRuneInString and unicode.IsSpace (the
+	// rune-level definition of Model/Utf8.lean that the scan is PROVED to compute)
+	{
+		nf := 6000
+		if c.thorough() {
+			nf = 120000
+		}
+		spaces := []string{" ", "\t", "\n", "\v", "\f", "\r", "\u0085", "\u00a0", "\u1680", "\u2000", "\u2001", "\u2009", "\u200a", "\u2028", "\u2029", "\u202f", "\u205f", "\u3000"}
+		near := []string{"\u200b", "\u00a1", "\u0084", "\u180e", "\u2027", "\u202e", "\u2060", "\u3001", "\ufeff", "\xc2", "\xe2\x80", "\xe3\x80", "\xa0", "\x85",
+			"\xc0\xa0", "\xe0\x80\xa0", "\xed\xa0\x80", "\xf4\x90\x80\x80", "\xf0\x8f\xbf\xbf", "\xe1\x9a", "\xe2\x81", "\U0001F511", "\u20ac", "é", "\xff", "\xf5\x80\x80\x80", "\x1c", "\x1f", "\x00"}
+		for i := 0; i < nf; i++ {
+			if !c.mine(i) {
+				continue
+			}
+			var sb []byte
+			for k := r.Intn(7); k > 0; k-- {
+				switch r.Intn(6) {
+				case 0, 1:
+					sb = append(sb, spaces[r.Intn(len(spaces))]...)
+				case 2:
+					sb = append(sb, near[r.Intn(len(near))]...)
+				case 3:
+					sb = append(sb, r.Bytes(1+r.Intn(4))...)
+				default:
+					sb = append(sb, []string{"a", "score", ">=", "3", "xy", "é"}[r.Intn(6)]...)
+				}
+			}
+			var parts []string
+			for _, f := range strings.Fields(string(sb)) {
+				parts = append(parts, vxs(f))
+			}
+			c.emit("go.fields "+vxb(sb), "["+strings.Join(parts, ",")+"]")
+			// every suffix start: the decoder at arbitrary (also non-boundary) positions
+			for p := 0; p < len(sb) && p < 6; p++ {
+				rn, w := utf8.DecodeRuneInString(string(sb[p:]))
+				c.emit("go.decoderune "+vxb(sb[p:min(len(sb), p+5)]), fmt.Sprintf("%d %d", rn, w))
+			}
+		}
+		// unicode.IsSpace over the whole code space (strided above U+3100, every white-space rune's neighbourhood in full)
+		for rn := 0; rn <= 0x10FFFF; rn++ {
+			if rn > 0x3100 && rn%257 != 0 {
+				continue
+			}
+			if c.mine(rn) {
+				c.emit(fmt.Sprintf("go.isspace %d", rn), vtf(unicode.IsSpace(rune(rn))))
 			}
 		}
 	}
